@@ -25,6 +25,8 @@ type IngestScenario struct {
 	// expander migrates; after Kmig migrated items the consumer receives one row from the old channel.
 	Directed bool `json:"directed"`
 	Kmig     int  `json:"kmig"`
+	// Second directed family: a row is added by another producer between the expander's usage sample and its write lock.
+	SampleRace bool `json:"samplerace"`
 }
 
 // RunIngest runs one ingest scenario and returns its trace.
@@ -32,6 +34,9 @@ func RunIngest(sc IngestScenario) (evs []Ev, inconclusive string) {
 	var gates []string
 	if sc.Directed {
 		gates = []string{"proc.ref", "exp.item", "exp.swap"}
+	}
+	if sc.SampleRace {
+		gates = []string{"proc.ref", "exp.enter", "exp.sampled"}
 	}
 	in := NewInst(gates...)
 	defer in.Close()
@@ -59,7 +64,7 @@ func RunIngest(sc IngestScenario) (evs []Ev, inconclusive string) {
 		}
 	}()
 	in.Bind(s.Stream())
-	in.Log(Ev{"tr": sc.Tr, "e": "reset", "strategy": sc.Strategy, "data": sc.Data, "max": pc.BufferConfig.MaxBufferSize, "producers": sc.Producers, "rows": sc.Rows, "directed": b2i(sc.Directed)})
+	in.Log(Ev{"tr": sc.Tr, "e": "reset", "strategy": sc.Strategy, "data": sc.Data, "max": pc.BufferConfig.MaxBufferSize, "producers": sc.Producers, "rows": sc.Rows, "directed": b2i(sc.Directed || sc.SampleRace)})
 	perturb := func() {
 		if !sc.Perturb {
 			return
@@ -99,7 +104,35 @@ func RunIngest(sc IngestScenario) (evs []Ev, inconclusive string) {
 		s.Emit(map[string]any{"id": i, "p": p})
 	}
 	const T = 10 * time.Second
-	if sc.Directed {
+	if sc.SampleRace {
+		if !in.WaitFor(T, func() bool { return in.NWaiting("proc.ref") > 0 }) {
+			return in.Events(), "consumer did not reach proc.ref"
+		}
+		for i := 1; i <= sc.Data; i++ { // fill the buffer
+			emit(1, i)
+		}
+		done := make(chan struct{})
+		go func() { emit(1, sc.Data+1); close(done) }() // finds the buffer full -> expandDataChannel
+		if !in.WaitFor(T, func() bool { return in.NWaiting("exp.enter") > 0 }) {
+			return in.Events(), "expansion did not start (schedule not reproducible on this tree)"
+		}
+		base := in.Count("proc.item")
+		in.Release("proc.ref") // consumer takes one row: usage drops below full but stays above the threshold
+		if !in.WaitFor(T, func() bool { return in.C("proc.item") > base && in.NWaiting("proc.ref") > 0 }) {
+			return in.Events(), "consumer did not take a row"
+		}
+		in.Release("exp.enter") // expander samples cap/len now
+		if !in.WaitFor(T, func() bool { return in.NWaiting("exp.sampled") > 0 }) {
+			return in.Events(), "expander did not sample"
+		}
+		emit(2, 1) // second producer fills the freed slot before the expander takes the write lock
+		in.Disarm()
+		select {
+		case <-done:
+		case <-time.After(T):
+			return in.Events(), "producer stuck"
+		}
+	} else if sc.Directed {
 		// consumer is parked at proc.ref holding the reference of the initial channel
 		if !in.WaitFor(T, func() bool { return in.NWaiting("proc.ref") > 0 }) {
 			return in.Events(), "consumer did not reach proc.ref"
@@ -151,6 +184,9 @@ func RunIngest(sc IngestScenario) (evs []Ev, inconclusive string) {
 	total := int64(sc.Producers * sc.Rows)
 	if sc.Directed {
 		total = int64(sc.Rows)
+	}
+	if sc.SampleRace {
+		total = int64(sc.Data + 2)
 	}
 	okq := in.WaitFor(T, func() bool {
 		st := s.GetStats()
